@@ -307,8 +307,10 @@ TRAILING = ['', ', x', ', x, y', ', a = 1', ', "lit"', ',']
 FILLERS = [None, '', ' ', '  ', '\n    ', '\r\n\t', ' /* c */ ', ' /* ; , " */ ', ' // c\n    ', '\n', ' // c\n', ' /* a /* b */ c */ ', '\x0c', '\u2028', ' \u200e', '\x0b\u0085']
 SITES = ['after_open', 'after_target', 'after_kv_comma', 'after_semi', 'before_sep', 'before_close']
 CTX_BEFORE = ['', '  ', '\t', '{ ', '; ', '=> ', 'return ', 'break ', 'let _ = ', 'x = ', '} else { ', '|e| ', 'foo(); ', '/* c */ ',
-              '"s" ', 'é; ', "let c = '\"'; ", "m(b'\"'); ", 'let r = r#"x"y"#; ']
-CTX_AFTER = [';\n', ')\n', ' }\n', ',\n', ';']   # the last one: end of file without a newline
+              '"s" ', 'é; ', "let c = '\"'; ", "m(b'\"'); ", 'let r = r#"x"y"#; ',
+              # the statement inside a macro invoked with braces / brackets (select!, cfg_if!, thread_local!, vec!)
+              'tokio::select! { v = rx.recv() => { ', 'm!{ a = ', 'v![k = ', 'thread_local! { static A: u8 = { ', 'cfg_if! { if #[cfg(x)] { ']
+CTX_AFTER = [';\n', ')\n', ' }\n', ',\n', ';', '; "done" } }\n', '; "lit" ]\n']   # index 4: end of file without a newline
 
 
 def kv_lists(maxn, shapes=KV_SHAPES):
